@@ -586,9 +586,10 @@ def _silence_plan(rng, kind):
            "max_delay": 8, "peers": peers}
     around = rng.choice([notify, notify, timeout])
     ln = max(20, around + rng.choice([-220, -60, -30, -17, -5, 5, 17, 30, 60, 150]))
-    outs = [{"from": 1, "to": 0, "start": 1500, "len": ln}]
-    if rng.random() < 0.5:
-        outs.append({"from": 0, "to": 1, "start": 1500, "len": ln})
+    a, b = (1, 0) if rng.random() < 0.5 else (0, 1)
+    outs = [{"from": a, "to": b, "start": 1500, "len": ln}]
+    if rng.random() < 0.4:
+        outs.append({"from": b, "to": a, "start": 1500, "len": ln})
     return {"seed": rng.randrange(1 << 30), "cfg": cfg, "frames": 10 ** 9, "tick_ms": [rng.choice([4, 16, 16, 33])] * 2,
             "jitter": rng.choice([0, 2]), "lat_lo": 3, "lat_hi": rng.choice([3, 20]), "loss": 0.0,
             "alphabet": 4, "change": 0.3, "outages": outs, "fault_until": 1500 + ln + 10,
@@ -659,6 +660,238 @@ def c12(res, wd):
                 "event queue <= 100.  non-trivial per family: packets lost / events seen / >=1000 calls")
 
 
+# ---------------------------------------------------------------------------------------------
+# C14 (codec) and C08 (malformed / foreign packets)
+# ---------------------------------------------------------------------------------------------
+
+CODEC_BIN = os.path.join(core.BIN, "codec")
+ALLOC_BOUND = 4 * 129 * (65535 + 2)      # a small multiple of what a legitimate packet can expand to
+
+
+def _codec_run(args, timeout=1800):
+    """Run the codec harness in a child process (an allocation abort kills only the child)."""
+    rc, out = core.sh([CODEC_BIN] + args, timeout=timeout)
+    if rc != 0:
+        return None, out
+    last = [l for l in out.splitlines() if l.startswith("{")]
+    return json.loads(last[-1]), out
+
+
+def _validate_codec_records(path, wd, tag, par=12):
+    """TLC validates the records against Codec.tla (chunks in parallel).  Returns (records, skipped, bad list)."""
+    with open(path) as f:
+        lines = f.readlines()
+    if not lines:
+        return 0, 0, []
+    nchunk = max(1, min(par * 2, len(lines) // 3000 + 1))
+    size = (len(lines) + nchunk - 1) // nchunk
+    jobs = []
+    for i in range(nchunk):
+        part = lines[i * size:(i + 1) * size]
+        if not part:
+            continue
+        pth = os.path.join(wd, "%s_chunk%02d.ndjson" % (tag, i))
+        with open(pth, "w") as f:
+            f.writelines(part)
+        jobs.append((i, pth))
+
+    def one(job):
+        import re
+        i, pth = job
+        rc, out = core.tlc(os.path.join(core.SPEC, "Trace_Codec.tla"), os.path.join(core.SPEC, "Trace_Codec.cfg"),
+                           os.path.join(wd, "md_%s_%02d" % (tag, i)), env={"TRACE": pth}, timeout=1500, xmx="3g")
+        m = re.search(r'<<"CODEC-RESULT", "(.*)">>', out)
+        if not m:
+            raise core.ToolError("Trace_Codec produced no result for %s (rc=%d): %s" % (pth, rc, out[-1500:]))
+        os.remove(pth)
+        return json.loads(m.group(1).encode().decode("unicode_escape"))
+
+    outs = core.parallel(one, jobs, n=par)
+    return (sum(o["records"] for o in outs), sum(o["skipped"] for o in outs),
+            [b for o in outs for b in o["first"]])
+
+
+def _codec_core(res, wd, pid):
+    """The part shared by C14 and C08: exhaustive decoder inputs judged against Codec.tla, random /
+    mutational inputs judged for panic and peak allocation."""
+    core.build()
+    maxlen = 2
+    rec = os.path.join(wd, "dec_exh.ndjson")
+    summ, out = _codec_run(["exhaust", rec, str(maxlen)])
+    if summ is None:
+        res.violations.append({"prop": pid, "code": "decoder-aborted-the-process", "detail": out[-300:],
+                               "family": "codec-exhaust", "cls": "codec", "replay": rec})
+        return
+    n, skipped, bad = _validate_codec_records(rec, wd, "exh")
+    res.traces += 1
+    res.evaluations += n
+    res.nontrivial += n - skipped
+    res.extra["decoder_exhaustive"] = {"max_len": maxlen, "records": n, "validated_by_tlc": n - skipped,
+                                       "exhaustive": True, "max_peak_alloc": summ["max_peak"]}
+    for b in bad[:3]:
+        rp = os.path.join(core.REPLAYS, pid)
+        os.makedirs(rp, exist_ok=True)
+        rpath = os.path.join(rp, "codec_%s_s%d.json" % (b["why"], res.seed))
+        with open(rpath, "w") as f:
+            json.dump(b, f)
+        res.violations.append({"prop": pid, "code": b["why"], "detail": b["rec"], "family": "codec-exhaust",
+                               "cls": "codec", "replay": rpath})
+    if res.tier == "thorough":
+        rec3 = os.path.join(wd, "dec_exh3.ndjson")
+        summ3, out3 = _codec_run(["exhaust", rec3, "3", "0,1,2,3,4,5,8,127,128,129,130,255"])
+        if summ3 is None:
+            res.violations.append({"prop": pid, "code": "decoder-aborted-the-process", "detail": out3[-300:],
+                                   "family": "codec-exhaust3", "cls": "codec", "replay": rec3})
+        else:
+            n3, sk3, bad3 = _validate_codec_records(rec3, wd, "exh3")
+            res.evaluations += n3
+            res.nontrivial += n3 - sk3
+            res.extra["decoder_exhaustive_len3_alphabet12"] = {"records": n3, "validated_by_tlc": n3 - sk3}
+            for b in bad3[:3]:
+                res.violations.append({"prop": pid, "code": b["why"], "detail": b["rec"], "family": "codec-exhaust3",
+                                       "cls": "codec", "replay": rec3})
+        sw = os.path.join(wd, "sweep3.ndjson")
+        s3, o3 = _codec_run(["sweep3", sw])
+        if s3 is None or s3["panics_or_mismatches"] > 0 or s3["max_peak"] > ALLOC_BOUND:
+            res.violations.append({"prop": pid, "code": "three-byte-sweep-panic-abort-or-allocation",
+                                   "detail": (s3 or o3[-300:]), "family": "codec-sweep3", "cls": "codec", "replay": sw})
+        else:
+            res.evaluations += s3["cases"]
+            res.extra["decoder_sweep_all_3_byte_strings"] = s3
+    # mutational decoder inputs (bit flips, truncation, varint inflation, insertions, garbage)
+    mut = os.path.join(wd, "dec_mut.ndjson")
+    nm = sizes(res.tier, 30000, 400000)
+    sm, om = _codec_run(["mutate", mut, str(res.seed), str(nm)])
+    if sm is None:
+        res.violations.append({"prop": pid, "code": "decoder-aborted-the-process", "detail": om[-300:],
+                               "family": "codec-mutate", "cls": "codec", "replay": mut})
+    else:
+        res.evaluations += sm["cases"]
+        res.extra["decoder_mutational"] = sm
+        if sm["panics_or_mismatches"] > 0:
+            res.violations.append({"prop": pid, "code": "decode-panicked", "detail": sm, "family": "codec-mutate",
+                                   "cls": "codec", "replay": mut})
+        if sm["max_peak"] > ALLOC_BOUND:
+            res.violations.append({"prop": pid, "code": "decode-allocates-unboundedly", "detail": sm,
+                                   "family": "codec-mutate", "cls": "codec", "replay": mut})
+        nmr, skm, badm = _validate_codec_records(mut, wd, "mut")
+        res.nontrivial += nmr - skm
+        for b in badm[:3]:
+            res.violations.append({"prop": pid, "code": b["why"], "detail": b["rec"], "family": "codec-mutate",
+                                   "cls": "codec", "replay": mut})
+
+
+def c14(res, wd):
+    consts = {"Bytes": "{0, 1, 128, 255}", "MaxLen": 2, "MaxCount": 2,
+              "DecBytes": "{0, 1, 2, 3, 4, 5, 6, 8, 128, 129, 130}", "DecLen": 3}
+    if res.tier == "thorough":
+        consts.update({"Bytes": "{0, 1, 127, 128, 255}", "MaxCount": 3})
+    held, out = engines.mc_generic(res, wd, "codec_theorems", "MC_Codec.tla", consts,
+                                   invariants=["RoundTripAll", "EncodeValid", "TotalAll"], workers=2, timeout=3000)
+    if not held:
+        raise core.ToolError("MC_Codec: the codec specification violates its own theorems:\n" + out[-1500:])
+    import re
+    m = re.search(r'"cases", (\d+), "decoder-inputs", (\d+)', out)
+    if m:
+        res.extra["spec_theorem_instances"] = {"round_trip_cases": int(m.group(1)), "decoder_inputs": int(m.group(2))}
+        res.states += int(m.group(1)) + int(m.group(2))
+        res.transitions += int(m.group(1)) + int(m.group(2))
+    _codec_core(res, wd, "C14")
+    # round trips through the real encode/decode: small exhaustive (bytes + round trip validated by
+    # TLC against SpecEncode / RoundTrip) and random large (lengths up to 65535, long 0x00/0xFF runs)
+    rt = os.path.join(wd, "roundtrip.ndjson")
+    nr = sizes(res.tier, 300, 4000)
+    sr, orr = _codec_run(["roundtrip", rt, str(res.seed), str(nr)])
+    if sr is None or sr["panics_or_mismatches"] > 0:
+        res.violations.append({"prop": "C14", "code": "round-trip-failed", "detail": sr or orr[-300:],
+                               "family": "codec-roundtrip", "cls": "codec", "replay": rt})
+    else:
+        res.evaluations += sr["cases"]
+        n, sk, bad = _validate_codec_records(rt, wd, "rt")
+        res.nontrivial += n
+        res.extra["round_trip_real_codec"] = {"cases": sr["cases"], "validated_by_tlc": n, "random_large": nr}
+        for b in bad[:3]:
+            res.violations.append({"prop": "C14", "code": b["why"], "detail": b["rec"], "family": "codec-roundtrip",
+                                   "cls": "codec", "replay": rt})
+    res.add_sample({"decoder_record": {"ref": [7], "data": [129, 2], "res": "judged against Codec.tla SpecDecode"}})
+    res.rule = ("Codec.tla transcribes delta + run-length coding as functions; MC_Codec checks RoundTrip / Total / "
+                "EncodeValid exhaustively over small alphabets; the real decode is run on EVERY byte string up to 2 bytes "
+                "(thorough: all 3-byte strings for panic/allocation, 3-byte strings over a 12-value alphabet validated) "
+                "and each record (reference, data, result) is validated by TLC against SpecDecode; the real encode is "
+                "compared byte for byte with SpecEncode on the small exhaustive space; random references/inputs up to "
+                "65535 bytes with long 0x00/0xFF runs round-trip through the real code; mutated payloads are judged for "
+                "panic and peak heap use (counting allocator) <= 4x the largest legitimate decoded packet. "
+                "non-trivial = records validated by TLC")
+    res.assumptions += ["lengths above 12 bytes are sampled, not enumerated; the bincode layer is outside the specification",
+                        "varints longer than 4 bytes exceed TLC's exact integers: those records are judged for panic "
+                        "and allocation only"]
+
+
+FORGE_KINDS = ["shortStatus", "negStart", "badPayload", "wrongSizeAll", "wrongSizeFirst", "wrongSizeLast",
+               "foreignMagic", "unknownAddr"]
+
+
+def _forge_plan(rng, frames, payloads):
+    p = plans.general(rng, frames, npeers=rng.choice([2, 2, 3]), spectators=rng.choice([0, 0, 1]))
+    p["cfg"]["forged"] = True
+    p["cfg"]["inputs_by_frame"] = 4
+    p["forge"] = {"rate": rng.choice([0.05, 0.2, 0.5]), "kinds": FORGE_KINDS, "payloads": payloads}
+    p["loss"] = rng.choice([0.0, 0.1])
+    if rng.random() < 0.3:
+        p["kills"] = [{"p": len([x for x in p["cfg"]["peers"] if x["kind"] == "p2p"]) - 1, "at_frame": frames // 2}]
+        p["cfg"]["timeout"] = 600
+        p["cfg"]["notify"] = 300
+        p["settle_ms"] = 1500
+    return p
+
+
+def c08(res, wd):
+    _codec_core(res, wd, "C08")
+    # packet level: malformed / foreign packets injected at random points of otherwise valid runs
+    # (handshake, running, after a disconnect); invalid payloads are chosen by the Codec specification
+    rng = random.Random(res.seed * 1000 + 80)
+    payloads = [[b] for b in range(128, 256, 9)] + [[0x81], [0xfd, 0xff, 0xff, 0xff, 0x0f], [2, 1], [4, 9, 9],
+                                                    [0xff] * 10, [1, 0, 0], [3]]
+    n, frames = sizes(res.tier, (16, 200), (120, 800))
+    ps = [_forge_plan(rng, frames, payloads) for _ in range(n)]
+    outs = engines.obs_runs(res, "C08", ps, {"C01", "C03", "C02", "C12", "C06"}, wd, "c08",
+                            nontrivial=lambda st, pl: st.get("forgedPackets", 0) >= 5)
+    # twin: the same players without any forged packet simulate the same confirmed timeline
+    pairs = []
+    for i, pl in enumerate(ps[:sizes(res.tier, 5, 30)]):
+        if pl.get("kills"):
+            continue
+        q = json.loads(json.dumps(pl))
+        q.pop("forge")
+        q["seed"] += 3
+        pairs.append((i, pl, q))
+
+    def twin(job):
+        i, pl, q = job
+        a = os.path.join(wd, "fwa_%03d.ndjson" % i)
+        b = os.path.join(wd, "fwb_%03d.ndjson" % i)
+        core.drive([pl], a)
+        core.drive([q], b)
+        return i, a, b, engines.twin_compare(a, b, os.path.join(wd, "mdfw_%03d" % i))
+
+    for i, a, b, r in core.parallel(twin, pairs, n=6):
+        res.traces += 2
+        bad = {p: f for p, f in r["diff"].items() if f != -1}
+        if bad:
+            replay = core.save_replay("C08", a, 1, "twin_%03d_s%d" % (i, res.seed))
+            res.violations.append({"prop": "C08", "code": "forged-packets-changed-the-delivered-inputs",
+                                   "line": 0, "detail": bad, "family": "twin", "cls": "twin", "replay": replay})
+    res.extra["twin_runs"] = len(pairs)
+    res.rule = ("byte level: every byte string up to 2 bytes (thorough: 3) through the real decode, validated by TLC "
+                "against Codec.tla, plus mutated payloads (panic / abort / peak allocation); packet level: forged input "
+                "packets derived from the last genuine one (wrong number of statuses, negative start frame, payloads "
+                "the Codec specification rejects, frames of the wrong size alone / before / after well-sized frames, "
+                "foreign magic, unknown address) injected with probability 5-50% per tick into 2-3 peer sessions with "
+                "spectators during handshake, play and after a peer died; Monitor.tla demands no panic, delivered "
+                "inputs = owner-side truth, event automaton intact; Trace_Twin.tla compares with the unforged twin. "
+                "non-trivial = >=5 forged packets consumed")
+
+
 CHECKS = {
     "C01": c01,
     "C02": c02,
@@ -667,10 +900,12 @@ CHECKS = {
     "C05": c05,
     "C06": c06,
     "C07": c07,
+    "C08": c08,
     "C09": c09,
     "C10": c10,
     "C11": c11,
     "C12": c12,
+    "C14": c14,
 }
 
 
